@@ -26,8 +26,8 @@ Ok(r) ==
      /\ Has(r.seq.c, "variable") /\ Has(r.combine.c, "variable")
      /\ Contains(r.seq.c.m["variable"], LastVC(ch))
      /\ (AllTyped(ch) /\ DistinctTypes(ch)) =>
-           /\ Contains(r.seq.c.m["variable"], Required(st.c, ch))
-           /\ Contains(r.compose.c.m["variable"], Required(st.c, ch))
+           /\ Contains(r.seq.c.m["variable"], RequiredC(st.c, ch))
+           /\ Contains(r.compose.c.m["variable"], RequiredC(st.c, ch))
      /\ ~Plain(ch) => ComposeListOk(st.c, ch, r.seq.c.m["variable"])
      /\ r.combine.d = DT([j \in 1..Len(ch) |-> Get(ch[j], st.d)])
      /\ Contains(r.combine.c.m["variable"],
